@@ -5,51 +5,52 @@ import FqModel.Serial.Bson
   C16 — the source texts the serialization models were transliterated from and validated against
   (hand-written; compared with the REGENERATED texts of FqModel/Gen/SerialTables.lean in Props/C16.lean).
 
-  `rowSem` gives the meaning (a `Msgpack.Kind`) of each decode-function text that may appear in a row of
-  msgpack's `formatEntries` table; a row whose text is not listed has no known meaning (`none`).
+  `rowSem` gives the meaning (a `Msgpack.Kind`) of each NORMALISED decode function that may appear in a row of
+  msgpack's `formatEntries` table (the sequence of decoder calls with their literal arguments; error message
+  texts dropped); a row whose description is not listed has no known meaning (`none`).
 -/
 namespace FqModel.Serial.Pins
 open FqModel.Serial
 
-/-- meaning of the source text of a row's `d:` function (format/msgpack/msgpack.go:99-147) -/
+/-- meaning of the normalised `d:` function of a row (format/msgpack/msgpack.go:99-147) -/
 def rowSem (body : List String) : Option Msgpack.Kind :=
-  if body == ["func(d", "*decode.D)", "{", "d.SeekRel(-8)", "d.FieldU8(\"value\")", "}"] then some (.posfix)
-  else if body == ["mapFn(-4,", "4)"] then some (.fixmap)
-  else if body == ["arrayFn(-4,", "4)"] then some (.fixarr)
-  else if body == ["func(d", "*decode.D)", "{", "d.SeekRel(-5)", "length", ":=", "d.FieldU5(\"length\")", "d.FieldUTF8(\"value\",", "int(length))", "}"] then some (.fixstr)
-  else if body == ["func(d", "*decode.D)", "{", "d.FieldValueAny(\"value\",", "nil)", "}"] then some (.nil)
-  else if body == ["func(d", "*decode.D)", "{", "d.Fatalf(\"0xc1", "never", "used\")", "}"] then some (.neverUsed)
-  else if body == ["func(d", "*decode.D)", "{", "d.FieldValueBool(\"value\",", "false)", "}"] then some (.bool false)
-  else if body == ["func(d", "*decode.D)", "{", "d.FieldValueBool(\"value\",", "true)", "}"] then some (.bool true)
-  else if body == ["func(d", "*decode.D)", "{", "d.FieldRawLen(\"value\",", "int64(d.FieldU8(\"length\"))*8)", "}"] then some (.bin 1)
-  else if body == ["func(d", "*decode.D)", "{", "d.FieldRawLen(\"value\",", "int64(d.FieldU16(\"length\"))*8)", "}"] then some (.bin 2)
-  else if body == ["func(d", "*decode.D)", "{", "d.FieldRawLen(\"value\",", "int64(d.FieldU32(\"length\"))*8)", "}"] then some (.bin 4)
+  if body == ["SeekRel(-8)", "FieldU8(value)"] then some (.posfix)
+  else if body == ["mapFn(-4,4)"] then some (.fixmap)
+  else if body == ["arrayFn(-4,4)"] then some (.fixarr)
+  else if body == ["SeekRel(-5)", "length=FieldU5(length)", "FieldUTF8(value,length)"] then some (.fixstr)
+  else if body == ["FieldValueAny(value,nil)"] then some (.nil)
+  else if body == ["Fatalf()"] then some (.neverUsed)
+  else if body == ["FieldValueBool(value,false)"] then some (.bool false)
+  else if body == ["FieldValueBool(value,true)"] then some (.bool true)
+  else if body == ["FieldRawLen(value,FieldU8(length)*8)"] then some (.bin 1)
+  else if body == ["FieldRawLen(value,FieldU16(length)*8)"] then some (.bin 2)
+  else if body == ["FieldRawLen(value,FieldU32(length)*8)"] then some (.bin 4)
   else if body == ["extFn(8)"] then some (.ext 1)
   else if body == ["extFn(16)"] then some (.ext 2)
   else if body == ["extFn(32)"] then some (.ext 4)
-  else if body == ["func(d", "*decode.D)", "{", "d.FieldF32(\"value\")", "}"] then some (.f32)
-  else if body == ["func(d", "*decode.D)", "{", "d.FieldF64(\"value\")", "}"] then some (.f64)
-  else if body == ["func(d", "*decode.D)", "{", "d.FieldU8(\"value\")", "}"] then some (.uint 1)
-  else if body == ["func(d", "*decode.D)", "{", "d.FieldU16(\"value\")", "}"] then some (.uint 2)
-  else if body == ["func(d", "*decode.D)", "{", "d.FieldU32(\"value\")", "}"] then some (.uint 4)
-  else if body == ["func(d", "*decode.D)", "{", "d.FieldU64(\"value\")", "}"] then some (.uint 8)
-  else if body == ["func(d", "*decode.D)", "{", "d.FieldS8(\"value\")", "}"] then some (.sint 1)
-  else if body == ["func(d", "*decode.D)", "{", "d.FieldS16(\"value\")", "}"] then some (.sint 2)
-  else if body == ["func(d", "*decode.D)", "{", "d.FieldS32(\"value\")", "}"] then some (.sint 4)
-  else if body == ["func(d", "*decode.D)", "{", "d.FieldS64(\"value\")", "}"] then some (.sint 8)
-  else if body == ["func(d", "*decode.D)", "{", "d.FieldS8(\"fixtype\");", "d.FieldRawLen(\"value\",", "1*8)", "}"] then some (.fixext 1)
-  else if body == ["func(d", "*decode.D)", "{", "d.FieldS8(\"fixtype\");", "d.FieldRawLen(\"value\",", "2*8)", "}"] then some (.fixext 2)
-  else if body == ["func(d", "*decode.D)", "{", "d.FieldS8(\"fixtype\");", "d.FieldRawLen(\"value\",", "4*8)", "}"] then some (.fixext 4)
-  else if body == ["func(d", "*decode.D)", "{", "d.FieldS8(\"fixtype\");", "d.FieldRawLen(\"value\",", "8*8)", "}"] then some (.fixext 8)
-  else if body == ["func(d", "*decode.D)", "{", "d.FieldS8(\"fixtype\");", "d.FieldRawLen(\"value\",", "16*8)", "}"] then some (.fixext 16)
-  else if body == ["func(d", "*decode.D)", "{", "d.FieldUTF8(\"value\",", "int(d.FieldU8(\"length\")))", "}"] then some (.str 1)
-  else if body == ["func(d", "*decode.D)", "{", "d.FieldUTF8(\"value\",", "int(d.FieldU16(\"length\")))", "}"] then some (.str 2)
-  else if body == ["func(d", "*decode.D)", "{", "d.FieldUTF8(\"value\",", "int(d.FieldU32(\"length\")))", "}"] then some (.str 4)
-  else if body == ["arrayFn(0,", "16)"] then some (.arr 2)
-  else if body == ["arrayFn(0,", "32)"] then some (.arr 4)
-  else if body == ["mapFn(0,", "16)"] then some (.map 2)
-  else if body == ["mapFn(0,", "32)"] then some (.map 4)
-  else if body == ["func(d", "*decode.D)", "{", "d.SeekRel(-8)", "d.FieldS8(\"value\")", "}"] then some (.negfix)
+  else if body == ["FieldF32(value)"] then some (.f32)
+  else if body == ["FieldF64(value)"] then some (.f64)
+  else if body == ["FieldU8(value)"] then some (.uint 1)
+  else if body == ["FieldU16(value)"] then some (.uint 2)
+  else if body == ["FieldU32(value)"] then some (.uint 4)
+  else if body == ["FieldU64(value)"] then some (.uint 8)
+  else if body == ["FieldS8(value)"] then some (.sint 1)
+  else if body == ["FieldS16(value)"] then some (.sint 2)
+  else if body == ["FieldS32(value)"] then some (.sint 4)
+  else if body == ["FieldS64(value)"] then some (.sint 8)
+  else if body == ["FieldS8(fixtype)", "FieldRawLen(value,1*8)"] then some (.fixext 1)
+  else if body == ["FieldS8(fixtype)", "FieldRawLen(value,2*8)"] then some (.fixext 2)
+  else if body == ["FieldS8(fixtype)", "FieldRawLen(value,4*8)"] then some (.fixext 4)
+  else if body == ["FieldS8(fixtype)", "FieldRawLen(value,8*8)"] then some (.fixext 8)
+  else if body == ["FieldS8(fixtype)", "FieldRawLen(value,16*8)"] then some (.fixext 16)
+  else if body == ["FieldUTF8(value,FieldU8(length))"] then some (.str 1)
+  else if body == ["FieldUTF8(value,FieldU16(length))"] then some (.str 2)
+  else if body == ["FieldUTF8(value,FieldU32(length))"] then some (.str 4)
+  else if body == ["arrayFn(0,16)"] then some (.arr 2)
+  else if body == ["arrayFn(0,32)"] then some (.arr 4)
+  else if body == ["mapFn(0,16)"] then some (.map 2)
+  else if body == ["mapFn(0,32)"] then some (.map 4)
+  else if body == ["SeekRel(-8)", "FieldS8(value)"] then some (.negfix)
   else none
 
 /-- which branch of `_msgpack_torepr` (format/msgpack/msgpack.jq) a type symbol takes -/
@@ -145,5 +146,15 @@ def berDecodeTagNumber : List String := ["{", "v", ":=", "d.U5()", "moreBytes", 
 def berValue : List String := ["{", "class", ":=", "d.FieldU2(\"class\",", "tagClassMap)", "form", ":=", "d.FieldU1(\"form\",", "constructedPrimitiveMap)", "_", "=", "parentTag", "_", "=", "parentForm", "var", "tag", "uint64", "switch", "class", "{", "case", "classUniversal:", "tag", "=", "d.FieldUintFn(\"tag\",", "decodeTagNumber,", "universalTypeMap,", "scalar.UintHex)", "default:", "tag", "=", "d.FieldUintFn(\"tag\",", "decodeTagNumber)", "}", "length", ":=", "d.FieldUintFn(\"length\",", "decodeLength,", "lengthMap)", "var", "l", "int64", "switch", "length", "{", "case", "lengthIndefinite:", "if", "(class", "!=", "classUniversal", "||", "tag", "!=", "universalTypeNull)", "&&", "form", "==", "formPrimitive", "{", "d.Fatalf(\"primitive", "with", "indefinite", "length\")", "}", "l", "=", "d.BitsLeft()", "default:", "l", "=", "int64(length)", "*", "8", "}", "d.LimitedFn(l,", "func(d", "*decode.D)", "{", "switch", "{", "case", "form", "==", "formConstructed", "||", "tag", "==", "universalTypeSequence", "||", "tag", "==", "universalTypeSet:", "d.FieldArray(\"constructed\",", "func(d", "*decode.D)", "{", "for", "!d.End()", "{", "if", "length", "==", "lengthIndefinite", "&&", "d.PeekUintBits(16)", "==", "lengthEndMarker", "{", "break", "}", "if", "form", "==", "formConstructed", "&&", "bib", "==", "nil", "&&", "sb", "==", "nil", "{", "switch", "tag", "{", "case", "universalTypeBitString:", "bib", "=", "&bitio.Buffer{}", "case", "universalTypeOctetString:", "bib", "=", "&bitio.Buffer{}", "case", "universalTypeUTF8string,", "universalTypeNumericString,", "universalTypePrintableString,", "universalTypeTeletexString,", "universalTypeVideotexString,", "universalTypeIA5String,", "universalTypeUTCTime,", "universalTypeVisibleString,", "universalTypeGeneralString:", "sb", "=", "&strings.Builder{}", "}", "}", "d.FieldStruct(\"object\",", "func(d", "*decode.D)", "{", "decodeASN1BERValue(d,", "bib,", "sb,", "form,", "tag)", "})", "}", "})", "if", "length", "==", "lengthIndefinite", "{", "d.FieldU16(\"end_marker\")", "}", "if", "form", "==", "formConstructed", "{", "switch", "tag", "{", "case", "universalTypeBitString:", "if", "bib", "!=", "nil", "{", "buf,", "bufLen", ":=", "bib.Bits()", "d.FieldRootBitBuf(\"value\",", "bitio.NewBitReader(buf,", "bufLen))", "}", "case", "universalTypeOctetString:", "if", "bib", "!=", "nil", "{", "buf,", "bufLen", ":=", "bib.Bits()", "d.FieldRootBitBuf(\"value\",", "bitio.NewBitReader(buf,", "bufLen))", "}", "case", "universalTypeUTF8string,", "universalTypeNumericString,", "universalTypePrintableString,", "universalTypeTeletexString,", "universalTypeVideotexString,", "universalTypeIA5String,", "universalTypeUTCTime,", "universalTypeVisibleString,", "universalTypeGeneralString:", "if", "sb", "!=", "nil", "{", "d.FieldValueStr(\"value\",", "sb.String())", "}", "}", "}", "case", "class", "==", "classUniversal", "&&", "tag", "==", "universalTypeEndOfContent:", "case", "class", "==", "classUniversal", "&&", "tag", "==", "universalTypeBoolean:", "d.FieldU8(\"value\",", "scalar.UintRangeToScalar{", "{Range:", "[2]uint64{0,", "0},", "S:", "scalar.Uint{Sym:", "false}},", "{Range:", "[2]uint64{0x01,", "0xff1},", "S:", "scalar.Uint{Sym:", "true}},", "})", "case", "class", "==", "classUniversal", "&&", "tag", "==", "universalTypeInteger:", "if", "length", ">", "8", "{", "d.FieldSBigInt(\"value\",", "int(length)*8)", "}", "else", "{", "d.FieldS(\"value\",", "int(length)*8)", "}", "case", "class", "==", "classUniversal", "&&", "tag", "==", "universalTypeBitString:", "unusedBitsCount", ":=", "d.FieldU8(\"unused_bits_count\")", "if", "unusedBitsCount", ">", "7", "{", "d.Fatalf(\"unusedBitsCount", "%d", ">", "7\",", "unusedBitsCount)", "}", "br", ":=", "d.FieldRawLen(\"value\",", "int64(length-1)*8-int64(unusedBitsCount))", "if", "bib", "!=", "nil", "{", "if", "_,", "err", ":=", "bitio.Copy(bib,", "br);", "err", "!=", "nil", "{", "d.IOPanic(err,", "\"value\",", "\"bitio.Copy\")", "}", "}", "if", "unusedBitsCount", ">", "0", "{", "d.FieldRawLen(\"unused_bits\",", "int64(unusedBitsCount))", "}", "case", "class", "==", "classUniversal", "&&", "tag", "==", "universalTypeOctetString:", "br", ":=", "d.FieldRawLen(\"value\",", "int64(length)*8)", "if", "bib", "!=", "nil", "{", "if", "_,", "err", ":=", "bitio.Copy(bib,", "br);", "err", "!=", "nil", "{", "d.IOPanic(err,", "\"value\",", "\"bitio.Copy\")", "}", "}", "case", "class", "==", "classUniversal", "&&", "tag", "==", "universalTypeNull:", "d.FieldValueAny(\"value\",", "nil)", "case", "class", "==", "classUniversal", "&&", "tag", "==", "universalTypeObjectIdentifier:", "d.FieldArray(\"value\",", "func(d", "*decode.D)", "{", "d.FieldUintFn(\"oid\",", "func(d", "*decode.D)", "uint64", "{", "return", "d.U8()", "/", "40", "})", "d.SeekRel(-8)", "d.FieldUintFn(\"oid\",", "func(d", "*decode.D)", "uint64", "{", "return", "d.U8()", "%", "40", "})", "for", "!d.End()", "{", "d.FieldUintFn(\"oid\",", "func(d", "*decode.D)", "uint64", "{", "more", ":=", "true", "var", "n", "uint64", "for", "more", "{", "b", ":=", "d.U8()", "n", "=", "n<<7", "|", "b&0b0111_1111", "more", "=", "b&0b1000_0000", "!=", "0", "}", "return", "n", "})", "}", "})", "case", "class", "==", "classUniversal", "&&", "tag", "==", "universalTypeObjectDescriptor:", "case", "class", "==", "classUniversal", "&&", "tag", "==", "universalTypeExternal:", "d.FieldRawLen(\"value\",", "int64(length)*8)", "case", "class", "==", "classUniversal", "&&", "tag", "==", "universalTypeReal:", "switch", "length", "{", "case", "0:", "d.FieldValueUint(\"value\",", "0)", "default:", "switch", "d.FieldBool(\"binary_encoding\")", "{", "case", "true:", "s", ":=", "d.FieldScalarBool(\"sign\",", "scalar.BoolMapSymSint{", "true:", "-1,", "false:", "1,", "}).SymSint()", "base", ":=", "d.FieldScalarU2(\"base\",", "scalar.UintMapSymUint{", "0b00:", "2,", "0b01:", "8,", "0b10:", "16,", "0b11:", "0,", "}).SymUint()", "scale", ":=", "d.FieldU2(\"scale\")", "format", ":=", "d.FieldU2(\"format\")", "var", "exp", "int64", "switch", "format", "{", "case", "0b00:", "exp", "=", "d.FieldS8(\"exp\")", "case", "0b01:", "exp", "=", "d.FieldS16(\"exp\")", "case", "0b10:", "exp", "=", "d.FieldS24(\"exp\")", "default:", "n", ":=", "d.FieldU8(\"exp_bytes\")", "exp", "=", "d.FieldS(\"exp\",", "int(n)*8)", "}", "n", ":=", "d.FieldU(\"n\",", "int(d.BitsLeft()))", "m", ":=", "float64(s)", "*", "float64(n)", "*", "math.Pow(float64(base),", "float64(exp))", "*", "float64(int(1)<<scale)", "d.FieldValueFlt(\"value\",", "m)", "case", "false:", "switch", "d.FieldBool(\"decimal_encoding\")", "{", "case", "true:", "n", ":=", "d.FieldU6(\"special\",", "scalar.UintMapSymStr{", "decimalPlusInfinity:", "\"plus_infinity\",", "decimalMinusInfinity:", "\"minus_infinity\",", "decimalNan:", "\"nan\",", "decimalMinusZero:", "\"minus_zero\",", "})", "switch", "n", "{", "case", "decimalPlusInfinity:", "d.FieldValueFlt(\"value\",", "math.Inf(1))", "case", "decimalMinusInfinity:", "d.FieldValueFlt(\"value\",", "math.Inf(-1))", "case", "decimalNan:", "d.FieldValueFlt(\"value\",", "math.NaN())", "case", "decimalMinusZero:", "d.FieldValueFlt(\"value\",", "-0)", "}", "case", "false:", "d.FieldU6(\"representation\",", "scalar.UintMapSymStr{", "0b00_00_01:", "\"nr1\",", "0b00_00_10:", "\"nr2\",", "0b00_00_11:", "\"nr3\",", "})", "d.FieldFltFn(\"value\",", "func(d", "*decode.D)", "float64", "{", "n,", "_", ":=", "strconv.ParseFloat(d.UTF8(int(d.BitsLeft()/8)),", "64)", "return", "n", "})", "}", "}", "}", "case", "class", "==", "classUniversal", "&&", "tag", "==", "universalTypeUTF8string,", "class", "==", "classUniversal", "&&", "tag", "==", "universalTypeNumericString,", "class", "==", "classUniversal", "&&", "tag", "==", "universalTypePrintableString,", "class", "==", "classUniversal", "&&", "tag", "==", "universalTypeTeletexString,", "class", "==", "classUniversal", "&&", "tag", "==", "universalTypeVideotexString,", "class", "==", "classUniversal", "&&", "tag", "==", "universalTypeIA5String,", "class", "==", "classUniversal", "&&", "tag", "==", "universalTypeUTCTime,", "class", "==", "classUniversal", "&&", "tag", "==", "universalTypeVisibleString,", "class", "==", "classUniversal", "&&", "tag", "==", "universalTypeGeneralString:", "s", ":=", "d.FieldUTF8(\"value\",", "int(length))", "if", "sb", "!=", "nil", "{", "sb.WriteString(s)", "}", "case", "class", "==", "classUniversal", "&&", "tag", "==", "universalTypeGeneralizedtime:", "d.FieldRawLen(\"value\",", "int64(length)*8)", "default:", "d.FieldRawLen(\"value\",", "l)", "}", "})", "}"]
 
 def berJq : List String := ["def", "_asn1_ber_torepr:", "if", ".class", "==", "\"universal\"", "then", "if", ".tag", "|", ".", "==", "\"sequence\"", "or", ".", "==", "\"set\"", "then", ".constructed", "|", "map(_asn1_ber_torepr)", "else", ".value", "|", "tovalue", "end", "else", ".constructed", "|", "map(_asn1_ber_torepr)", "end;"]
+
+/-- cbor major types and short counts by ROLE (the symbol fq shows), as the model uses them -/
+def cborMajorBySym : List (String × Nat) := [
+  ("positive_int", Cbor.majorTypePositiveInt), ("negative_int", Cbor.majorTypeNegativeInt), ("bytes", Cbor.majorTypeBytes),
+  ("utf8", Cbor.majorTypeUTF8), ("array", Cbor.majorTypeArray), ("map", Cbor.majorTypeMap),
+  ("semantic", Cbor.majorTypeSematic), ("special_float", Cbor.majorTypeSpecialFloat)]
+
+def cborShortCountBySym : List (String × Nat) := [
+  ("8bit", Cbor.shortCountVariable8Bit), ("16bit", Cbor.shortCountVariable16Bit), ("32bit", Cbor.shortCountVariable32Bit),
+  ("64bit", Cbor.shortCountVariable64Bit), ("indefinite", Cbor.shortCountIndefinite)]
 
 end FqModel.Serial.Pins
